@@ -30,6 +30,7 @@ pub struct Profile {
     /// re-aggregated once, combined by UNION ALL.
     pub p_shared_cte: f64,
     pub p_alias_shadow: f64,
+    pub p_cross: f64,
     /// Probability of an aggregation over an aggregation grouped by the inner aggregate
     /// (`SELECT t.c, count(*) FROM (SELECT count(*) AS c FROM base GROUP BY key) AS t GROUP BY t.c`).
     pub p_nested_group: f64,
@@ -55,16 +56,17 @@ impl Profile {
             p_nested: 0.08,
             p_shared_cte: 0.0,
             p_alias_shadow: 0.0,
+            p_cross: 0.0,
             p_nested_group: 0.0,
             p_multi_dp: 0.0,
         };
         match prop {
-            "C03" => Profile { p_multi_dp: 0.06, p_shared_cte: 0.05, p_nested_group: 0.03, ..base },
-            "C01" => Profile { p_shared_cte: 0.03, p_nested_group: 0.05, ..base },
+            "C03" => Profile { p_cross: 0.04, p_multi_dp: 0.06, p_shared_cte: 0.05, p_nested_group: 0.03, ..base },
+            "C01" => Profile { p_cross: 0.06, p_shared_cte: 0.03, p_nested_group: 0.05, ..base },
             "C09" => Profile { p_alias_shadow: 0.4, public_keys_only: true, benign_data: true, p_distinct: 0.12, p_row_privacy: 0.15, p_grouped: 0.65, ..base },
             "C04" => Profile { p_nested_group: 0.08, p_nested: 0.0, need_private_key: true, p_grouped: 1.0, p_outer: 0.0, p_distinct: 0.05, ..base },
             "C16" => Profile { benign_data: true, full_catalogue: true, p_public_table: 1.0, p_synthetic: 0.3, ..base },
-            "C02" => Profile { p_multi_dp: 0.04, p_nested_group: 0.03, p_shared_cte: 0.08, p_plain: 0.25, p_synthetic: 0.4, p_public_table: 0.5, p_outer: 0.2, ..base },
+            "C02" => Profile { p_cross: 0.04, p_multi_dp: 0.04, p_nested_group: 0.03, p_shared_cte: 0.08, p_plain: 0.25, p_synthetic: 0.4, p_public_table: 0.5, p_outer: 0.2, ..base },
             _ => base,
         }
     }
@@ -363,7 +365,9 @@ pub fn generate(seed: u64, run: u64, prop: &str) -> Generated {
                 "id" => Cell::Int(id),
                 "name" => {
                     // a few shared names: one unit = several user rows
-                    if dup_unique && rd.chance(0.3) || rd.chance(0.1) { Cell::Text(format!("n{}", rd.below(3))) } else { Cell::Text(format!("u{}", i)) }
+                    // (benign instances honour a declared UNIQUE on the column)
+                    let shared = dup_unique && rd.chance(0.3) || rd.chance(0.1);
+                    if shared && !(benign && c.unique) { Cell::Text(format!("n{}", rd.below(3))) } else { Cell::Text(format!("u{}", i)) }
                 }
                 "w" => Cell::Float(*rd.pick(&[0.0, 0.5, 1.0, 2.0])),
                 _ => gen_cell(&mut rd, c, null_p, bound_p),
@@ -581,6 +585,16 @@ pub fn generate(seed: u64, run: u64, prop: &str) -> Generated {
         from.push(FromItem { table: "regions".into(), alias: "r".into(), on: Some("u.city = r.city".into()), kind: if rg.chance(0.75) { "JOIN".into() } else { "RIGHT JOIN".into() } });
         in_scope.push(has("regions").unwrap());
         join_tags.push("users-regions");
+    }
+    // a CROSS JOIN of two protected tables instead of the join along the path (own stream): the
+    // tracked join must still pair rows of one unit only
+    let mut rx_ = Rng::stream(seed, run, "cross_join");
+    if rx_.chance(profile.p_cross) {
+        if let Some(f) = from.iter_mut().skip(1).find(|f| protected.contains(&f.table)) {
+            f.kind = "CROSS JOIN".into();
+            f.on = None;
+            join_tags.push("cross");
+        }
     }
     tags.push(format!("from:{}{}", base_t.name, if join_tags.is_empty() { String::new() } else { format!("+{}", join_tags.join("+")) }));
 
